@@ -5,6 +5,8 @@ package core
 
 import (
 	"encoding/binary"
+	"flag"
+	"strconv"
 	"encoding/hex"
 	"encoding/json"
 	"fmt"
@@ -374,6 +376,28 @@ func RunWatched[C any](t *testing.T, p Prop[C]) {
 			rt.Fatalf("VIOLATION %s: %s", p.ID, r.fail)
 		}
 	})
+}
+
+// RunScaled is Run with the number of rapid checks scaled by num/den (sub-checks that share a
+// property's budget).
+func RunScaled[C any](t *testing.T, p Prop[C], num, den int) {
+	t.Helper()
+	f := flag.Lookup("rapid.checks")
+	if f == nil {
+		Run(t, p)
+		return
+	}
+	old := f.Value.String()
+	if n, err := strconv.Atoi(old); err == nil && den > 0 {
+		m := n * num / den
+		if m < 1 {
+			m = 1
+		}
+		_ = flag.Set("rapid.checks", strconv.Itoa(m))
+		fmt.Println("VERIF-SCALED", p.ID, m)
+		defer flag.Set("rapid.checks", old)
+	}
+	Run(t, p)
 }
 
 // Run drives a property with rapid. All randomness is inside p.Gen.
